@@ -210,3 +210,15 @@ Definition spec_accepts (c : ccase) : bool :=
       | _ => false
       end
   end.
+
+(* ---- cmd/console/main.go runTerminal (hand-modelled; it needs a tty and is NOT driven by the
+   correspondence check):
+     for { lines, err := t.ReadLine()
+           if err == io.EOF { break } else if err != nil { return err }
+           for _, query := range lines { sess.ExecQuery(query) } }
+   ErrPasteIndicator is a non-nil error: a line returned with it is dropped and the loop ends. *)
+Fixpoint handed_to_engine (os : list rl_out) : list (list N) :=
+  match os with
+  | Line ss false :: r => ss ++ handed_to_engine r
+  | _ => []
+  end.
